@@ -15,8 +15,8 @@ Definition IConvertable : list (gkind * bool) :=
 Definition greaterThanUpperBoundary (C1 : gty) (C2 : gty) (value : val) (upperBoundary : val) : res bool :=
   greater <- (Ok false) ;;  (* named result, zero value *)
   (go_if (go_cmp Ole C1 (Ok value) (go_const C1 0))
-    ((Ok greater))
-    ((if go_dyn_is C1 Kfloat64 then
+    (fun _ => (Ok greater))
+    (fun _ => (if go_dyn_is C1 Kfloat64 then
       (f <- (Ok value) ;;
       greater <- (go_cmp Oge Tfloat64 (Ok f) (go_conv C2 Tfloat64 (Ok upperBoundary))) ;;
       (Ok greater))
@@ -33,8 +33,8 @@ Definition greaterThanUpperBoundary (C1 : gty) (C2 : gty) (value : val) (upperBo
 Definition lessThanLowerBoundary (T : gty) (T2 : gty) (value : val) (boundary : val) : res bool :=
   lower <- (Ok false) ;;  (* named result, zero value *)
   (go_if (go_cmp Oge T (Ok value) (go_const T 0))
-    ((Ok lower))
-    ((if go_dyn_is T Kfloat64 then
+    (fun _ => (Ok lower))
+    (fun _ => (if go_dyn_is T Kfloat64 then
       (f <- (Ok value) ;;
       lower <- (go_cmp Ole Tfloat64 (Ok f) (go_conv T2 Tfloat64 (Ok boundary))) ;;
       (Ok lower))
@@ -50,82 +50,82 @@ Definition lessThanLowerBoundary (T : gty) (T2 : gty) (value : val) (boundary : 
 (* cast.go:8-16   func ToInt[C IConvertable](i C) int *)
 Definition ToInt (C : gty) (i : val) : res val :=
   (go_if (arg__1 <- (Ok i) ;; arg__2 <- (go_const Tint (-9223372036854775808)) ;; lessThanLowerBoundary C Tint arg__1 arg__2)
-    ((go_const Tint (-9223372036854775808)))
-    ((go_if (arg__3 <- (Ok i) ;; arg__4 <- (go_const Tint 9223372036854775807) ;; greaterThanUpperBoundary C Tint arg__3 arg__4)
-      ((go_const Tint 9223372036854775807))
-      ((go_conv C Tint (Ok i)))))).
+    (fun _ => (go_const Tint (-9223372036854775808)))
+    (fun _ => (go_if (arg__3 <- (Ok i) ;; arg__4 <- (go_const Tint 9223372036854775807) ;; greaterThanUpperBoundary C Tint arg__3 arg__4)
+      (fun _ => (go_const Tint 9223372036854775807))
+      (fun _ => (go_conv C Tint (Ok i)))))).
 
 (* cast.go:21-29   func ToUint[C IConvertable](i C) uint *)
 Definition ToUint (C : gty) (i : val) : res val :=
   (go_if (arg__1 <- (Ok i) ;; arg__2 <- (go_const Tuint 0) ;; lessThanLowerBoundary C Tuint arg__1 arg__2)
-    ((go_const Tuint 0))
-    ((go_if (arg__3 <- (Ok i) ;; arg__4 <- (go_const Tuint 18446744073709551615) ;; greaterThanUpperBoundary C Tuint arg__3 arg__4)
-      ((go_const Tuint 18446744073709551615))
-      ((go_conv C Tuint (Ok i)))))).
+    (fun _ => (go_const Tuint 0))
+    (fun _ => (go_if (arg__3 <- (Ok i) ;; arg__4 <- (go_const Tuint 18446744073709551615) ;; greaterThanUpperBoundary C Tuint arg__3 arg__4)
+      (fun _ => (go_const Tuint 18446744073709551615))
+      (fun _ => (go_conv C Tuint (Ok i)))))).
 
 (* cast.go:34-42   func ToInt8[C IConvertable](i C) int8 *)
 Definition ToInt8 (C : gty) (i : val) : res val :=
   (go_if (arg__1 <- (Ok i) ;; arg__2 <- (go_const Tint (-128)) ;; lessThanLowerBoundary C Tint arg__1 arg__2)
-    ((go_const Tint8 (-128)))
-    ((go_if (arg__3 <- (Ok i) ;; arg__4 <- (go_const Tint 127) ;; greaterThanUpperBoundary C Tint arg__3 arg__4)
-      ((go_const Tint8 127))
-      ((go_conv C Tint8 (Ok i)))))).
+    (fun _ => (go_const Tint8 (-128)))
+    (fun _ => (go_if (arg__3 <- (Ok i) ;; arg__4 <- (go_const Tint 127) ;; greaterThanUpperBoundary C Tint arg__3 arg__4)
+      (fun _ => (go_const Tint8 127))
+      (fun _ => (go_conv C Tint8 (Ok i)))))).
 
 (* cast.go:47-55   func ToUint8[C IConvertable](i C) uint8 *)
 Definition ToUint8 (C : gty) (i : val) : res val :=
   (go_if (arg__1 <- (Ok i) ;; arg__2 <- (go_const Tint 0) ;; lessThanLowerBoundary C Tint arg__1 arg__2)
-    ((go_const Tuint8 0))
-    ((go_if (arg__3 <- (Ok i) ;; arg__4 <- (go_const Tint 255) ;; greaterThanUpperBoundary C Tint arg__3 arg__4)
-      ((go_const Tuint8 255))
-      ((go_conv C Tuint8 (Ok i)))))).
+    (fun _ => (go_const Tuint8 0))
+    (fun _ => (go_if (arg__3 <- (Ok i) ;; arg__4 <- (go_const Tint 255) ;; greaterThanUpperBoundary C Tint arg__3 arg__4)
+      (fun _ => (go_const Tuint8 255))
+      (fun _ => (go_conv C Tuint8 (Ok i)))))).
 
 (* cast.go:60-68   func ToInt16[C IConvertable](i C) int16 *)
 Definition ToInt16 (C : gty) (i : val) : res val :=
   (go_if (arg__1 <- (Ok i) ;; arg__2 <- (go_const Tint (-32768)) ;; lessThanLowerBoundary C Tint arg__1 arg__2)
-    ((go_const Tint16 (-32768)))
-    ((go_if (arg__3 <- (Ok i) ;; arg__4 <- (go_const Tint 32767) ;; greaterThanUpperBoundary C Tint arg__3 arg__4)
-      ((go_const Tint16 32767))
-      ((go_conv C Tint16 (Ok i)))))).
+    (fun _ => (go_const Tint16 (-32768)))
+    (fun _ => (go_if (arg__3 <- (Ok i) ;; arg__4 <- (go_const Tint 32767) ;; greaterThanUpperBoundary C Tint arg__3 arg__4)
+      (fun _ => (go_const Tint16 32767))
+      (fun _ => (go_conv C Tint16 (Ok i)))))).
 
 (* cast.go:73-81   func ToUint16[C IConvertable](i C) uint16 *)
 Definition ToUint16 (C : gty) (i : val) : res val :=
   (go_if (arg__1 <- (Ok i) ;; arg__2 <- (go_const Tint 0) ;; lessThanLowerBoundary C Tint arg__1 arg__2)
-    ((go_const Tuint16 0))
-    ((go_if (arg__3 <- (Ok i) ;; arg__4 <- (go_const Tint 65535) ;; greaterThanUpperBoundary C Tint arg__3 arg__4)
-      ((go_const Tuint16 65535))
-      ((go_conv C Tuint16 (Ok i)))))).
+    (fun _ => (go_const Tuint16 0))
+    (fun _ => (go_if (arg__3 <- (Ok i) ;; arg__4 <- (go_const Tint 65535) ;; greaterThanUpperBoundary C Tint arg__3 arg__4)
+      (fun _ => (go_const Tuint16 65535))
+      (fun _ => (go_conv C Tuint16 (Ok i)))))).
 
 (* cast.go:86-94   func ToInt32[C IConvertable](i C) int32 *)
 Definition ToInt32 (C : gty) (i : val) : res val :=
   (go_if (arg__1 <- (Ok i) ;; arg__2 <- (go_const Tint (-2147483648)) ;; lessThanLowerBoundary C Tint arg__1 arg__2)
-    ((go_const Tint32 (-2147483648)))
-    ((go_if (arg__3 <- (Ok i) ;; arg__4 <- (go_const Tint 2147483647) ;; greaterThanUpperBoundary C Tint arg__3 arg__4)
-      ((go_const Tint32 2147483647))
-      ((go_conv C Tint32 (Ok i)))))).
+    (fun _ => (go_const Tint32 (-2147483648)))
+    (fun _ => (go_if (arg__3 <- (Ok i) ;; arg__4 <- (go_const Tint 2147483647) ;; greaterThanUpperBoundary C Tint arg__3 arg__4)
+      (fun _ => (go_const Tint32 2147483647))
+      (fun _ => (go_conv C Tint32 (Ok i)))))).
 
 (* cast.go:99-107   func ToUint32[C IConvertable](i C) uint32 *)
 Definition ToUint32 (C : gty) (i : val) : res val :=
   (go_if (arg__1 <- (Ok i) ;; arg__2 <- (go_const Tint 0) ;; lessThanLowerBoundary C Tint arg__1 arg__2)
-    ((go_const Tuint32 0))
-    ((go_if (arg__3 <- (Ok i) ;; arg__4 <- (go_const Tint 4294967295) ;; greaterThanUpperBoundary C Tint arg__3 arg__4)
-      ((go_const Tuint32 4294967295))
-      ((go_conv C Tuint32 (Ok i)))))).
+    (fun _ => (go_const Tuint32 0))
+    (fun _ => (go_if (arg__3 <- (Ok i) ;; arg__4 <- (go_const Tint 4294967295) ;; greaterThanUpperBoundary C Tint arg__3 arg__4)
+      (fun _ => (go_const Tuint32 4294967295))
+      (fun _ => (go_conv C Tuint32 (Ok i)))))).
 
 (* cast.go:112-120   func ToInt64[C IConvertable](i C) int64 *)
 Definition ToInt64 (C : gty) (i : val) : res val :=
   (go_if (arg__1 <- (Ok i) ;; arg__2 <- (go_const Tint (-9223372036854775808)) ;; lessThanLowerBoundary C Tint arg__1 arg__2)
-    ((go_const Tint64 (-9223372036854775808)))
-    ((go_if (arg__3 <- (Ok i) ;; arg__4 <- (go_const Tint 9223372036854775807) ;; greaterThanUpperBoundary C Tint arg__3 arg__4)
-      ((go_const Tint64 9223372036854775807))
-      ((go_conv C Tint64 (Ok i)))))).
+    (fun _ => (go_const Tint64 (-9223372036854775808)))
+    (fun _ => (go_if (arg__3 <- (Ok i) ;; arg__4 <- (go_const Tint 9223372036854775807) ;; greaterThanUpperBoundary C Tint arg__3 arg__4)
+      (fun _ => (go_const Tint64 9223372036854775807))
+      (fun _ => (go_conv C Tint64 (Ok i)))))).
 
 (* cast.go:125-133   func ToUint64[C IConvertable](i C) uint64 *)
 Definition ToUint64 (C : gty) (i : val) : res val :=
   (go_if (arg__1 <- (Ok i) ;; arg__2 <- (go_const Tuint64 0) ;; lessThanLowerBoundary C Tuint64 arg__1 arg__2)
-    ((go_const Tuint64 0))
-    ((go_if (arg__3 <- (Ok i) ;; arg__4 <- (go_const Tuint64 18446744073709551615) ;; greaterThanUpperBoundary C Tuint64 arg__3 arg__4)
-      ((go_const Tuint64 18446744073709551615))
-      ((go_conv C Tuint64 (Ok i)))))).
+    (fun _ => (go_const Tuint64 0))
+    (fun _ => (go_if (arg__3 <- (Ok i) ;; arg__4 <- (go_const Tuint64 18446744073709551615) ;; greaterThanUpperBoundary C Tuint64 arg__3 arg__4)
+      (fun _ => (go_const Tuint64 18446744073709551615))
+      (fun _ => (go_conv C Tuint64 (Ok i)))))).
 
 (* constraint of the type parameter of each conversion function *)
 Definition ToInt_constraint : list (gkind * bool) := IConvertable.
